@@ -37,6 +37,32 @@ rule {
   }
 }
 rule {
+  locked = true
+  match { kind = "alerting" }
+  for {
+    min = "10m"
+    severity = "info"
+  }
+  keep_firing_for {
+    min = "2m"
+    severity = "info"
+  }
+}
+rule {
+  locked = true
+  aggregate ".+" {
+    keep = ["job"]
+    severity = "info"
+  }
+  name "job:.+" {
+    severity = "info"
+  }
+  reject "b" {
+    label_values = true
+    severity = "info"
+  }
+}
+rule {
   match { kind = "alerting" }
   annotation "summary" {
     required = true
@@ -181,6 +207,14 @@ func c07GenFile(r *rand.Rand) c07BaseFile {
 			add("")
 		}
 	}
+	// pre-existing FILE-level comments after the rules: expired file/snoozes of reporters that do fire (and comments for unknown
+	// checks), so that an inserted file/disable or live file/snooze is followed / preceded by an expired one for the same match
+	filePre := []string{"# pint file/snooze 2000-01-01 rule/label", "# pint file/snooze 2001-11-28T10:24:18Z alerts/annotation", "# pint file/snooze 2000-01-01 promql/regexp",
+		"# pint file/snooze 2000-01-01 alerts/comparison", "# pint file/snooze 2000-01-01 alerts/for", "# pint file/snooze 2000-01-01 rule/label(owner:true)",
+		"# pint file/disable nosuch/check", "# pint file/snooze 2099-01-01 nosuch/check"}
+	for k := r.Intn(5) - 1; k > 0; k-- {
+		add(pick(r, filePre))
+	}
 	return f
 }
 
@@ -257,6 +291,11 @@ func c07BlankOwner(key string) string {
 // problems of a locked config block (they must ignore rule-level comments); the JSON report does not carry the label
 // name, the config gives the locked blocks severities no other block of the same reporter uses
 func c07FromLocked(rp c07Rep) bool {
+	// rule/for (for and keep_firing_for blocks), promql/aggregate, rule/name and rule/reject only come from locked blocks of c07Config
+	switch rp.Reporter {
+	case "rule/for", "promql/aggregate", "rule/name", "rule/reject":
+		return true
+	}
 	return (rp.Reporter == "rule/label" && rp.Severity == "Bug") || (rp.Reporter == "alerts/annotation" && rp.Severity == "Information")
 }
 
@@ -304,7 +343,7 @@ func c07Oracle(r *rand.Rand, rep *runReport, nfiles int) {
 		}
 		files[k].f = c07BaseFile{
 			Lines: []string{"groups:", "- name: g0", "  rules:", "  # legacy one-liner", "  - {alert: Alert0, expr: up}", "  - alert: Alert1",
-				"    # pint snooze 2000-01-01 alerts/comparison", "    expr: up", "    for: 5m", "    labels:", "      team: a"},
+				"    # pint snooze 2000-01-01 alerts/comparison", "    expr: up", "    for: 5m", "    labels:", "      team: a", "# pint file/snooze 2000-01-01 rule/label"},
 			Rules: []c07Rule{{First: 5, Last: 5, PlainLines: []int{5}}, {First: 6, Last: 11, FieldLines: []int{6, 8, 9, 10}, PlainLines: []int{6, 8, 9, 10, 11}}},
 		}
 		files[k].crlf = crlf
